@@ -112,7 +112,7 @@ PROPS["C08"] = {
     "correspondence": "storage*.go ~ Model.Store (checker 800, incl. structure observations: segment ids / cached flags / memtable count)",
     "nontrivial_min_tokens": 60, "sub_max_len": 30000, "sub_per_checker": 4, "gen_timeout": 1500,
 }
-PROPS["C09"] = dict(PROPS["C08"], level_text="As C08 with 1..4 open/close sessions and reopening with fresh templates: durability after Flush/Close is REFUTED on the faithful model (theorem + witness add;Close;reopen;search), reproduced as a KNOWN-FINDING; 'segment identifiers are never reused' is proved for flush and compaction (invariant: all ids <= counter, pairwise distinct) and the reopen counter is the maximum id of any file name. Template kinds: flat and trained IVF (a fresh template trained on a fresh sample at every open); over IVF the specification demands that a live document is returned for its own stored vector at any probe count (theorem C13_added_vector_found_by_own_query).")
+PROPS["C09"] = dict(PROPS["C08"], level_text="As C08 with 1..4 open/close sessions and reopening with fresh templates: durability after Flush/Close is REFUTED on the faithful model (theorem + witness add;Close;reopen;search), reproduced as a KNOWN-FINDING; 'segment identifiers are never reused' is proved for flush and compaction (invariant: all ids <= counter, pairwise distinct) and the reopen counter is the maximum id of any file name. Template kinds: flat and trained IVF (a fresh template trained on a fresh sample at every open); over IVF the specification demands that a live document is returned for its own stored vector at any probe count (theorem C13_added_vector_found_by_own_query). The hnsw template kind is covered differentially (checker 801): a store over HNSW in its exact regime against a store over flat, same history incl. reopen with fresh templates, identical answers demanded.")
 PROPS["C09"]["correspondence"] = "storage.go/storage_provider.go/storage_segment.go ~ Model.Store (reopen = open_store over the directory listing)"
 
 PROPS["C10"] = dict(PROPS["C08"], level_text="Crash images are taken by a verif handler at every file-operation boundary of flushMemtable / writeIndexToSegment / compactSegments / deleteSegment (create x4, close, before/after registration, before drop, unregister, each file removal) plus synthetic byte-prefixes of the file being written in close order; each image is reopened by the real code with fresh templates and searched, and compared with the faithful model (segment files complete / truncated / payload-complete-truncated / empty / missing) and with the specification (everything covered by a completed Flush is found, nothing never-added or from an incomplete segment appears, reopening and searching never fail). Theorems: a segment with a broken/missing/empty hybrid or component file is ignored without touching the shared states and is never cached; identifiers are not reused; the half-load through a truncated LATER component is refuted with a witness. The order in which the component files are completed is OBSERVED at hook points after each gzip close (never assumed); a half-load in a crash image is a violation (the unchanged writers finish hybrid_ last), every finding code a case meets must be listed.")
